@@ -192,3 +192,36 @@ Example second_init_refused :
        (h_empty nat nat) [HNew nat nat 1%nat false; HNew nat nat 2%nat false]
   = ({| h_info := Some 1%nat; h_chunks := []; h_handles := [1%nat] |}, [Ok None; AccessErr]).
 Proof. reflexivity. Qed.
+
+(* the same across handles from ANY initial chunk store (a dataset that already
+   holds chunks when the history starts) *)
+From NGS Require Import PioAnyStore.
+Theorem handles_read_any_store :
+  forall (info chunk bytes : Type) (scales_of : info -> list scale) (check_info : info -> outcome unit)
+         (encode : info -> list N -> chunk -> outcome bytes)
+         (decode : info -> list N -> bytes -> triple -> outcome chunk) (shape_of : chunk -> triple)
+         ops (st : hstate info bytes) i h j k c,
+  (forall k ch b, encode i k ch = Ok b -> decode i k b (shape_of ch) = Ok ch) ->
+  Forall (no_overwrite info chunk) ops -> Forall (hwell_shaped info chunk shape_of) ops ->
+  agree info bytes st -> h_info st = Some i ->
+  nth_error (h_handles (fst (hrun info chunk bytes scales_of check_info encode decode st ops))) h = Some j ->
+  check_valid (scales_of i) k c = Ok tt ->
+  read_chunk chunk bytes (decode j) (scales_of j)
+    (h_chunks (fst (hrun info chunk bytes scales_of check_info encode decode st ops))) k c
+  = match last_written chunk bytes (encode i) (scales_of i)
+            (proj info chunk check_info i (length (h_handles st)) ops) k c None with
+    | Some ch => Ok ch
+    | None => read_chunk chunk bytes (decode i) (scales_of i) (h_chunks st) k c
+    end.
+Proof.
+  intros info chunk bytes scales_of check_info encode decode shape_of ops st i h j k c
+         Hrt Hno Hws Hag Hi Hn Hv.
+  destruct (hrun_refines_run info chunk bytes scales_of check_info encode decode ops st i Hno Hag Hi)
+    as [Hinfo Hchunks].
+  pose proof (hrun_agree info chunk bytes scales_of check_info encode decode ops st Hno Hag) as Hag'.
+  assert (j = i) as -> by (apply nth_error_In in Hn; apply Hag' in Hn; congruence).
+  rewrite Hchunks.
+  apply (io_refinement_any_store chunk bytes (encode i) (decode i) shape_of Hrt).
+  - apply proj_well_shaped; exact Hws.
+  - exact Hv.
+Qed.
